@@ -120,6 +120,7 @@ macro_rules! sfnt_harness {
 }
 
 // @bound file of 52 bytes: 12-byte offset table + 2 table records + 8 data bytes; every byte symbolic except numTables = 2; query tag any u32
+// @release
 sfnt_harness!(c10_sfnt_two_records, 2, 52, 8);
 
 // @tier thorough
@@ -162,6 +163,7 @@ fn c10_sfnt_truncated_directory() {
 /// TrueType collection with two members whose offset tables sit at symbolic
 /// offsets: member i is parsed at offsets[i]; an index beyond the end is an error.
 // @bound file of 64 bytes: ttcf header with numFonts = 2, everything else symbolic (member offsets anywhere, members with <= 1 table record); member index any usize
+// @release
 #[kani::proof]
 #[kani::unwind(8)]
 fn c10_ttc_two_members() {
